@@ -267,6 +267,38 @@ Proof.
       |unfold used_import_list in H2; apply in_sort_pairs_1 in H2; exact H2].
 Qed.
 
+(* every alias a handler refers to (controller, parameter types, the by-value custom error of a route) is one
+   of the import lines the template emitted: the import block is complete for the rendered code *)
+Lemma used_imports_are_imported sr cs x : In x (used_import_list sr cs) -> In x (import_list sr cs).
+Proof.
+  unfold used_import_list, import_list. intros H.
+  apply in_sort_pairs_2. apply used_subset_raw. apply in_sort_pairs_1. exact H.
+Qed.
+
+(* in particular: a route returning (T, E) with E a custom error returned by value gets the alias
+   Response<serial E>E of E's package, whatever T is (also a type of the same package) *)
+Lemma custom_error_alias_imported sr cs c r x :
+  In c cs -> In r (c_routes c) -> In x (last_resp_used sr r) -> In x (import_list sr cs).
+Proof.
+  intros Hc Hr Hx. apply used_imports_are_imported. unfold used_import_list. apply in_sort_pairs_2.
+  unfold used_pairs. apply in_flat_map. exists c. split; [exact Hc|].
+  apply in_or_app. right. apply in_flat_map. exists r. split; [exact Hr|].
+  apply in_or_app. right. exact Hx.
+Qed.
+
+Definition cerr_sr (t : tyref) : str :=
+  if str_eqb (t_name t) (s "Dto") then s "1" else if str_eqb (t_name t) (s "Failure") then s "2" else s "0".
+Definition cerr_cs : list ictrl :=
+  [mkICtrl (s "OrdersCtl") (s "m/ctl")
+     [mkIRoute [mkIParam (s "id") (mkTy (s "string") [])]
+               [mkIResp (mkTy (s "Dto") (s "m/ctl")) false; mkIResp (mkTy (s "Failure") (s "m/ctl")) false];
+      mkIRoute [] [mkIResp (mkTy (s "Dto") (s "m/ctl")) false; mkIResp (mkTy (s "error") []) false]]].
+Lemma cerr_import_lists :
+  import_list cerr_sr cerr_cs =
+  [(s "m/ctl", s "OrdersCtl"); (s "m/ctl", s "Response1Dto"); (s "m/ctl", s "Response2Failure")]
+  /\ used_import_list cerr_sr cerr_cs = [(s "m/ctl", s "OrdersCtl"); (s "m/ctl", s "Response2Failure")].
+Proof. split; vm_compute; reflexivity. Qed.
+
 (* ---------- the oracle says what the property text says ---------- *)
 Definition P_C09 (cfg_pkg : str) (gen_ok wrote : bool) (o : option file_obs) : Prop :=
   if gen_ok then
